@@ -41,9 +41,9 @@ THEOREMS = [
     "Cppcheck.Ctu.nestedCall_lost_before_fix", "Cppcheck.Ctu.nestedCall_old_counterexample",
     "Cppcheck.Ctu.unsafeUsage_roundtrip", "Cppcheck.Ctu.bufferInfo_roundtrip", "Cppcheck.Ctu.classInfo_roundtrip",
     "Cppcheck.Ctu.cacheFile_roundtrip", "Cppcheck.Ctu.wholeProgram_storage_independent",
-    "Cppcheck.Ctu.rawField_counterexample", "Cppcheck.Ctu.pathFile_counterexample",
+    "Cppcheck.Ctu.rawField_counterexample", "Cppcheck.Ctu.roundtrip_unrestricted_counterexample", "Cppcheck.Ctu.pathFile_counterexample",
     "Cppcheck.Unused.unusedInfo_roundtrip", "Cppcheck.Unused.unused_wp_equiv",
-    "Cppcheck.Unused.unused_dupname_counterexample", "Cppcheck.Unused.static_counterexample",
+    "Cppcheck.Unused.unused_dupname_counterexample", "Cppcheck.Unused.static_counterexample", "Cppcheck.Unused.unused_retattr_counterexample",
 ]
 MODULES = ["Cppcheck.Props.C22"]
 
@@ -559,7 +559,7 @@ def run_cli(binary, cwd, files, extra, jobs, bd):
     return rc, lines
 
 
-def four_modes(ctx, binary, files, extra, tag):
+def four_modes(ctx, binary, files, extra, tag, full=False):
     """files: dict name -> text.  Returns dict mode -> sorted finding lines"""
     d = os.path.join(ctx.tmp, "cli_" + tag)
     shutil.rmtree(d, ignore_errors=True)
@@ -576,7 +576,8 @@ def four_modes(ctx, binary, files, extra, tag):
     res["j1-bd-warm"] = run_cli(binary, d, srcs, extra, 1, "bd1")[1]
     os.makedirs(os.path.join(d, "bd2"))
     res["j2-bd-cold"] = run_cli(binary, d, srcs, extra, 2, "bd2")[1]
-    res["j2-bd-warm"] = run_cli(binary, d, srcs, extra, 2, "bd2")[1]
+    if full:
+        res["j2-bd-warm"] = run_cli(binary, d, srcs, extra, 2, "bd2")[1]
     shutil.rmtree(d, ignore_errors=True)
     return res
 
@@ -637,6 +638,17 @@ def gen_cli_unused(rng):
     return files, ["--enable=unusedFunction"], "unused"
 
 
+MAX_PER_CLASS = 3
+
+
+def report(res, cls, what, replay, key=None):
+    """register a concrete violation; at most MAX_PER_CLASS replays per class, the rest is only counted"""
+    n = res.dist.get("violations:" + cls, 0)
+    res.count("violations:" + cls)
+    if n < MAX_PER_CLASS:
+        res.violation(what, replay, concrete=True, key=key)
+
+
 def corpus():
     p = os.path.join(core.VERIF, "corpus", "C22", "cases.json")
     return json.load(open(p)) if os.path.exists(p) else {}
@@ -661,8 +673,8 @@ def roundtrip_check(ctx, res, kind, ops_vals, impl, known_counter):
         if k in ("raw-field-special", "path-file-not-simplified"):
             known_counter[k] = known_counter.get(k, 0) + 1       # outside the summaries the analysis can produce; hypothesis of the theorem
             continue
-        res.violation("summary does not survive the build dir (%s): load(toString v) != v on the real code; op=%s got L=%s" % (kind, op[:400], got[:400]),
-                      dict(kind="roundtrip", op=op, expected=expect, got=got, replay_cmd="./check.py C22 --replay <this file>"), concrete=True, key=k)
+        report(res, "roundtrip:%s:%s" % (kind, k), "summary does not survive the build dir (%s): load(toString v) != v on the real code; op=%s got L=%s" % (kind, op[:400], got[:400]),
+               dict(kind="roundtrip", op=op, expected=expect, got=got, replay_cmd="./check.py C22 --replay <this file>"), key=k)
 
 
 def run(ctx, res):
@@ -696,7 +708,7 @@ def run(ctx, res):
         s = core.unhx(op.split()[1])
         d = field(o, "D")
         if is_xmlsafe(s) and d != hx(s):
-            res.violation("toxml followed by the attribute reader changes an XML-safe string: %r -> %s" % (s, d), dict(kind="esc", op=op, got=o), concrete=True)
+            report(res, "esc", "toxml followed by the attribute reader changes an XML-safe string: %r -> %s" % (s, d), dict(kind="esc", op=op, got=o))
     ops = []
     for _ in range(250 * scale):
         k = rng.random()
@@ -787,8 +799,8 @@ def run(ctx, res):
                 if key == "raw-field-special":
                     hyp_counter[key] = hyp_counter.get(key, 0) + 1
                     continue
-                res.violation("check summary (%s) does not survive the build dir: toString(load(text)) != text; got %s" % (chk, (r or "")[:300]),
-                              dict(kind="chk", op=op, got=o), concrete=True, key=key)
+                report(res, "chk:%s:%s" % (chk, key), "check summary (%s) does not survive the build dir: toString(load(text)) != text; got %s" % (chk, (r or "")[:300]),
+                       dict(kind="chk", op=op, got=o), key=key)
             else:
                 res.count("roundtrip-ok:" + chk)
 
@@ -860,18 +872,18 @@ def run(ctx, res):
         if M != B:
             key = "unused-duplicate-name-location" if meta["dup"] else None
             res.count("unused-differs:" + (key or "UNCLASSIFIED"))
-            res.violation("unusedFunction findings differ between the in-memory and the build-dir algorithm: in-memory=%s build-dir=%s" % (M, B),
-                          dict(kind="unused", files=files, in_memory=M, build_dir=B, op=hop), concrete=True, key=key)
+            report(res, "unused:%s" % key, "unusedFunction findings differ between the in-memory and the build-dir algorithm: in-memory=%s build-dir=%s" % (M, B),
+                   dict(kind="unused", files=files, in_memory=M, build_dir=B, op=hop), key=key)
         else:
             res.count("unused-equal")
         if S:
             res.count("unused:staticFunction-only-in-memory")
-            res.violation("staticFunction is reported only by the in-memory algorithm (%s); the build-dir algorithm has no such finding" % S,
-                          dict(kind="unused-static", files=files, static=S, op=hop), concrete=True, key="staticfunction-missing-with-build-dir")
+            report(res, "unused-static", "staticFunction is reported only by the in-memory algorithm (%s); the build-dir algorithm has no such finding" % S,
+                   dict(kind="unused-static", files=files, static=S, op=hop), key="staticfunction-missing-with-build-dir")
 
     lap("unused")
     # ---- C9 CLI: the four storage modes ---------------------------------------------------------------------------
-    ncli = 40 if thorough else 5
+    ncli = 40 if thorough else 4
     nfind = 0
     for k in range(ncli):
         r = rng.random()
@@ -881,7 +893,7 @@ def run(ctx, res):
             files, extra, desc = gen_cli_classes(rng)
         else:
             files, extra, desc = gen_cli_unused(rng)
-        modes = four_modes(ctx, binary, files, extra, "g%d" % k)
+        modes = four_modes(ctx, binary, files, extra, "g%d" % k, full=thorough)
         ref = modes["j1"]
         nfind += len(ref)
         res.case("cli|" + json.dumps(files, sort_keys=True) + "|" + " ".join(extra), len(ref) > 0,
@@ -890,9 +902,9 @@ def run(ctx, res):
         bad = [m for m, v in modes.items() if v != ref]
         if bad:
             nested_lost = any("ctu" in l for l in ref) and all(len(modes[m]) < len(ref) for m in bad)
-            res.violation("whole-program findings differ between storage modes (%s): -j1 reports %d, %s reports %d; first missing: %s" %
-                          (desc, len(ref), bad[0], len(modes[bad[0]]), [l for l in ref if l not in modes[bad[0]]][:1]),
-                          dict(kind="cli", files=files, extra=extra, modes=modes, nested_lost=nested_lost), concrete=True)
+            report(res, "cli", "whole-program findings differ between storage modes (%s): -j1 reports %d, %s reports %d; first missing: %s" %
+                   (desc, len(ref), bad[0], len(modes[bad[0]]), [l for l in ref if l not in modes[bad[0]]][:1]),
+                   dict(kind="cli", files=files, extra=extra, modes=modes, nested_lost=nested_lost))
         else:
             res.traces_validated += 1
     lap("cli")
